@@ -594,7 +594,7 @@ def simfs_fidelity():
                 v = fn()
                 return ("ok", v)
             except OSError as e:
-                return (type(e).__name__, errno.errorcode.get(e.errno))
+                return (type(e).__name__, errno.errorcode.get(e.errno), e.filename is None)
 
         def rd(o, p):
             with o(p) as f:
@@ -653,7 +653,8 @@ def _fs_scenario():
             v = fn()
             out.append((name, "ok", v))
         except OSError as e:
-            out.append((name, type(e).__name__, errno.errorcode.get(e.errno)))
+            # (whether the error names a file is compared too: handlers format error.filename)
+            out.append((name, type(e).__name__, errno.errorcode.get(e.errno), e.filename is None))
         except (ValueError, TypeError) as e:
             # what CPython's own layers raise for misuse (closed file, bad mode, wrong direction)
             out.append((name, type(e).__name__, None))
